@@ -6,6 +6,7 @@ import (
 	"image/color"
 	"image/jpeg"
 	"sort"
+	"sync"
 
 	"github.com/bluenviron/gortsplib/v5/pkg/format"
 	"github.com/bluenviron/mediacommon/v2/pkg/codecs/mpeg4audio"
@@ -35,6 +36,8 @@ type fmtCase struct {
 	triples func(max int, thorough bool) []int
 	// shape, when set, replaces the size-class shape of a list (coverage classes).
 	shape func(sizes []int, max int) string
+	// nonRTPOnly: the case runs under the non-RTP entry condition only (an RTP publisher of it is another entry).
+	nonRTPOnly bool
 }
 
 func (fc *fmtCase) keyName() string {
@@ -193,36 +196,49 @@ func jpegImage(w, h, seed, quality int) []byte {
 	return buf.Bytes()
 }
 
+var jpegCache sync.Map
+
+// jpegCached: the images are deterministic; consumers never modify a payload.
+func jpegCached(w, h, seed, quality int) []byte {
+	k := [4]int{w, h, seed, quality}
+	if v, ok := jpegCache.Load(k); ok {
+		return v.([]byte)
+	}
+	b := jpegImage(w, h, seed, quality)
+	jpegCache.Store(k, b)
+	return b
+}
+
 func formats() []*fmtCase {
 	list := func(min, quantum int) func(int) []int {
 		return func(max int) []int { return norm(baseSizes(max), min, quantum) }
 	}
-	return []*fmtCase{
+	base := []*fmtCase{
 		{name: "h264", maxList: 3, video: true, sizes: list(1, 1),
 			forma: func() format.Format { return &format.H264{PayloadTyp: 96, PacketizationMode: 1} },
 			build: func(s []int) unit.Payload {
 				return unit.PayloadH264(elems(s, func(i int) []byte { return []byte{[]byte{0x65, 0x41, 0x06}[i%3]} }))
 			}},
 		{name: "h265", maxList: 3, video: true, sizes: list(2, 1),
-			forma: func() format.Format { return &format.H265{PayloadTyp: 96} },
+			forma: func() format.Format { return &format.H265{PayloadTyp: 97} },
 			build: func(s []int) unit.Payload {
 				return unit.PayloadH265(elems(s, func(i int) []byte { return [][]byte{{0x26, 0x01}, {0x02, 0x01}, {0x4e, 0x01}}[i%3] }))
 			}},
 		{name: "av1", maxList: 3, video: true, sizes: list(1, 1),
-			forma: func() format.Format { return &format.AV1{PayloadTyp: 96} },
+			forma: func() format.Format { return &format.AV1{PayloadTyp: 98} },
 			build: func(s []int) unit.Payload {
 				return unit.PayloadAV1(elems(s, func(i int) []byte { return []byte{[]byte{0x30, 0x18, 0x20}[i%3]} }))
 			}},
 		{name: "vp9", maxList: 1, video: true, sizes: list(len(vp9Header), 1),
-			forma: func() format.Format { return &format.VP9{PayloadTyp: 96} },
+			forma: func() format.Format { return &format.VP9{PayloadTyp: 99} },
 			build: func(s []int) unit.Payload {
 				return unit.PayloadVP9(elems(s, func(int) []byte { return vp9Header })[0])
 			}},
 		{name: "vp8", maxList: 1, video: true, sizes: list(1, 1),
-			forma: func() format.Format { return &format.VP8{PayloadTyp: 96} },
+			forma: func() format.Format { return &format.VP8{PayloadTyp: 100} },
 			build: func(s []int) unit.Payload { return unit.PayloadVP8(elems(s, func(int) []byte { return nil })[0]) }},
 		{name: "mpeg4video", maxList: 1, video: true, sizes: list(1, 1),
-			forma: func() format.Format { return &format.MPEG4Video{PayloadTyp: 96} },
+			forma: func() format.Format { return &format.MPEG4Video{PayloadTyp: 101} },
 			build: func(s []int) unit.Payload {
 				return unit.PayloadMPEG4Video(elems(s, func(int) []byte { return nil })[0])
 			}},
@@ -248,17 +264,17 @@ func formats() []*fmtCase {
 			build: func(s []int) unit.Payload {
 				dims := [][2]int{{8, 8}, {16, 8}, {16, 16}, {32, 16}, {32, 32}, {64, 32}, {64, 64}, {128, 64}, {128, 128}, {8, 2032}, {2032, 8}, {256, 128}}
 				d := dims[s[0]%len(dims)]
-				return unit.PayloadMJPEG(jpegImage(d[0], d[1], s[0], 30+5*(s[0]%12)))
+				return unit.PayloadMJPEG(jpegCached(d[0], d[1], s[0], 30+5*(s[0]%12)))
 			}},
 		{name: "opus", maxList: 3, sizes: list(1, 1), ticks: opusTicks,
-			forma: func() format.Format { return &format.Opus{PayloadTyp: 96, ChannelCount: 2} },
+			forma: func() format.Format { return &format.Opus{PayloadTyp: 111, ChannelCount: 2} },
 			build: func(s []int) unit.Payload {
 				return unit.PayloadOpus(elems(s, func(int) []byte { return []byte{0xfc} })) // CELT fullband 20 ms, one frame
 			}},
 		opusDurCase(), // durations vary between units and inside a unit (durations.go)
 		{name: "mpeg4audio", maxList: 3, sizes: list(1, 1), ticks: perElement(1024), // AAC-LC: 1024 samples per access unit
 			forma: func() format.Format {
-				return &format.MPEG4Audio{PayloadTyp: 96, SizeLength: 13, IndexLength: 3, IndexDeltaLength: 3,
+				return &format.MPEG4Audio{PayloadTyp: 102, SizeLength: 13, IndexLength: 3, IndexDeltaLength: 3,
 					Config: &mpeg4audio.AudioSpecificConfig{Type: mpeg4audio.ObjectTypeAACLC, SampleRate: 48000, ChannelConfig: 2, ChannelCount: 2}}
 			},
 			build: func(s []int) unit.Payload {
@@ -266,7 +282,7 @@ func formats() []*fmtCase {
 			}},
 		{name: "mpeg4audiolatm", maxList: 1, sizes: list(1, 1), ticks: indivisible,
 			forma: func() format.Format {
-				return &format.MPEG4AudioLATM{PayloadTyp: 96, ProfileLevelID: 1, CPresent: true}
+				return &format.MPEG4AudioLATM{PayloadTyp: 103, ProfileLevelID: 1, CPresent: true}
 			},
 			build: func(s []int) unit.Payload {
 				return unit.PayloadMPEG4AudioLATM(elems(s, func(int) []byte { return nil })[0])
@@ -282,7 +298,7 @@ func formats() []*fmtCase {
 				return unit.PayloadMPEG1Audio(out)
 			}},
 		{name: "ac3", maxList: 3, ticks: perElement(1536), // A/52: 6 blocks of 256 samples per syncframe
-			forma: func() format.Format { return &format.AC3{PayloadTyp: 96, SampleRate: 48000, ChannelCount: 2} },
+			forma: func() format.Format { return &format.AC3{PayloadTyp: 104, SampleRate: 48000, ChannelCount: 2} },
 			sizes: func(int) []int { return keysOf(ac3BySize) },
 			build: func(s []int) unit.Payload {
 				out := make([][]byte, len(s))
@@ -292,20 +308,28 @@ func formats() []*fmtCase {
 				return unit.PayloadAC3(out)
 			}},
 		{name: "g711", maxList: 1, sizes: list(1, 1), ticks: perBytes(1),
-			forma: func() format.Format { return &format.G711{PayloadTyp: 0, MULaw: true, SampleRate: 8000, ChannelCount: 1} },
+			forma: func() format.Format {
+				return &format.G711{PayloadTyp: 0, MULaw: true, SampleRate: 8000, ChannelCount: 1}
+			},
 			build: func(s []int) unit.Payload { return unit.PayloadG711(elems(s, func(int) []byte { return nil })[0]) }},
 		{name: "g711-stereo", maxList: 1, sizes: list(2, 2), ticks: perBytes(2),
-			forma: func() format.Format { return &format.G711{PayloadTyp: 96, MULaw: false, SampleRate: 16000, ChannelCount: 2} },
+			forma: func() format.Format {
+				return &format.G711{PayloadTyp: 118, MULaw: false, SampleRate: 16000, ChannelCount: 2}
+			},
 			build: func(s []int) unit.Payload { return unit.PayloadG711(elems(s, func(int) []byte { return nil })[0]) }},
 		{name: "lpcm", maxList: 1, sizes: list(4, 4), ticks: perBytes(4),
-			forma: func() format.Format { return &format.LPCM{PayloadTyp: 96, BitDepth: 16, SampleRate: 48000, ChannelCount: 2} },
+			forma: func() format.Format {
+				return &format.LPCM{PayloadTyp: 105, BitDepth: 16, SampleRate: 48000, ChannelCount: 2}
+			},
 			build: func(s []int) unit.Payload { return unit.PayloadLPCM(elems(s, func(int) []byte { return nil })[0]) }},
 		{name: "lpcm24-5.1", maxList: 1, sizes: list(18, 18), ticks: perBytes(18),
-			forma: func() format.Format { return &format.LPCM{PayloadTyp: 96, BitDepth: 24, SampleRate: 48000, ChannelCount: 6} },
+			forma: func() format.Format {
+				return &format.LPCM{PayloadTyp: 106, BitDepth: 24, SampleRate: 48000, ChannelCount: 6}
+			},
 			build: func(s []int) unit.Payload { return unit.PayloadLPCM(elems(s, func(int) []byte { return nil })[0]) }},
 		{name: "flac", maxList: 1, sizes: list(1, 1), // empty encoder: no packets are generated
 			forma: func() format.Format {
-				f := &format.Generic{PayloadTyp: 96, RTPMa: "flac/48000"}
+				f := &format.Generic{PayloadTyp: 107, RTPMa: "flac/48000"}
 				if err := f.Init(); err != nil {
 					panic(err)
 				}
@@ -313,7 +337,8 @@ func formats() []*fmtCase {
 			},
 			build: func(s []int) unit.Payload { return unit.PayloadFLAC(elems(s, func(int) []byte { return nil })[0]) }},
 		{name: "klv", maxList: 1, sizes: list(18, 1), ticks: indivisible,
-			forma: func() format.Format { return &format.KLV{PayloadTyp: 96} },
+			forma: func() format.Format { return &format.KLV{PayloadTyp: 108} },
 			build: func(s []int) unit.Payload { return unit.PayloadKLV(klvUnit(s[0])) }},
 	}
+	return append(base, variants(list)...)
 }
